@@ -6,7 +6,7 @@ from .. import common, engine_hist, refgraph, sandbox
 from . import c09
 
 PROP = 'C10'
-PLANS = {'quick': [('GOPS', 'all', 3, 1), ('GOPS2', 'all', 2, 1), ('GOPS', 'all', 2, 1, 'auto'), ('GOPS', 'all', 2, 0, 'dup')],
+PLANS = {'quick': [('GOPS', 'all', 3, 1), ('GOPS2', 'all', 2, 1), ('GOPS', 'all', 2, 1, 'auto'), ('GOPS', 'all', 2, 0, 'dup'), ('GOPS', 'all', 2, 1, 'plain', 'busy')],
          'thorough': [('GOPS', 'all', 4, 2), ('GOPS2', 'all', 4, 1), ('GOPS', 'all', 3, 1, 'auto'), ('GOPS', 'all', 3, 1, 'dup')]}
 VARIANTS = ['as_is', 'decorated']
 
@@ -44,7 +44,7 @@ def typed(obs, with_model, src_has_assets):
 def check_state(system, hist, stats):
     from maltoolbox.attackgraph import AttackGraph
     viols = []
-    case0 = {'system': repr((system.which, system.alpha, system.cfg.get('names', 'plain'))), 'history': [list(h) for h in hist]}
+    case0 = {'system': repr((system.which, system.alpha, system.cfg.get('names', 'plain'), system.cfg.get('start'))), 'history': [list(h) for h in hist]}
     for variant in VARIANTS:
         for fmt in ('json', 'yml'):
             for with_model in (True, False):
@@ -152,7 +152,7 @@ def run(tier, seed):
         lang, alpha, depth, K = plan[:4]
         sysarg = (lang, alpha) + tuple(plan[4:])
         reps = engine_hist.explore(c09.make_system, sysarg, depth, K, scratch, seed, shard=16,
-                                   label=f'[{",".join(sysarg)},D{depth},K{K}]')
+                                   label=f'[{",".join(map(str, sysarg))},D{depth},K{K}]')
         hists = common.rotate([reps[k][0] for k in sorted(reps)], seed)
         total += len(hists)
         jobs = [(sysarg, hists[i:i + 8]) for i in range(0, len(hists), 8)]
